@@ -507,7 +507,9 @@ def run(ctx):
     ctx._bytes = set()
     for unit, err in skeleton.regen_skeleton(['ringbuf']):
         ctx.broken.append(f'tie S: atomic-operation skeleton of {unit} could not be extracted from the source: {err}')
-    ctx.prove(['Librfn.Props.C05'], REQUIRED)
+    sys.path.insert(0, os.path.dirname(os.path.abspath(__file__)))
+    import tie_common
+    tie_common.prove(ctx, ['RingSeq'], ['Librfn.Props.C05'], REQUIRED, 'Librfn.Props.C05Tie', 'Librfn.C05.Tie')
     exe = harness(ctx)
     if not ctx.build_model():
         return
